@@ -28,6 +28,11 @@ def ref_cmc(grid, p):
     return code
 
 
+def _json_dumps(x):
+    import json
+    return json.dumps(x)
+
+
 def run(R):
     import numpy as np
     from neuroglancer_scripts import sharded_base as sb
@@ -71,6 +76,22 @@ def run(R):
             else:
                 p.append(rng.choice([-1, gi + 1, 2 * gi]))
         cases.append((cs, sizes, p, "random"))
+
+    # grids far beyond 2^21 chunks per axis (identifiers still fit 64 bits): coordinates above 2^32, bit sums at 63/64
+    for _ in range(400 if quick else 8000):
+        cs = rng.choice([1, 2, 64])
+        while True:
+            ks = [rng.choice([0, 1, 5, 12, 20, 22, 31, 32, 33, 40, 45]) for _ in range(3)]
+            g = [max(1, 2 ** k + rng.choice([-1, 0, 0, 1])) for k in ks]
+            if sum((x - 1).bit_length() for x in g) <= 64 and max(g) * cs < 2 ** 50:
+                break
+        sizes = [gi * cs - rng.randrange(cs) for gi in g]
+        p = []
+        for gi in g:
+            ch = rng.random()
+            p.append(gi - 1 if ch < 0.3 else rng.randrange(gi) if ch < 0.6 else
+                     min(gi - 1, 1 << max(0, (gi - 1).bit_length() - 1)) if ch < 0.85 else gi)
+        cases.append((cs, sizes, p, "huge"))
 
     reqs = []
     for cs, sizes, p, _k in cases:
@@ -155,6 +176,12 @@ def run(R):
         ctor.append((cs, sizes))
     ctor += [([1, 1, 1], [2 ** 22, 2 ** 22, 2 ** 21]), ([1, 1, 1], [2 ** 22, 2 ** 22, 2 ** 20 + 1]),
              ([1, 1, 1], [2 ** 22, 2 ** 22, 2 ** 20])]
+    # bit sums 63..66 from axes that are not powers of two (sum of the per-axis bit counts, not the bit count
+    # of the chunk count, decides)
+    ctor += [([1, 1, 1], [2 ** 21 + 1, 2 ** 21 + 1, 2 ** 21]), ([1, 1, 1], [2 ** 21 + 1, 2 ** 21 + 1, 2 ** 20]),
+             ([1, 1, 1], [2 ** 40 + 1, 2 ** 12 + 1, 2 ** 10 + 1]), ([1, 1, 1], [2 ** 40 + 1, 2 ** 12 + 1, 2 ** 9]),
+             ([1, 1, 1], [2 ** 32 + 1, 2 ** 15, 2 ** 15]), ([1, 1, 1], [2 ** 31 + 1, 2 ** 31 + 1, 3]),
+             ([2, 2, 2], [2 ** 22 + 3, 2 ** 22 + 3, 2 ** 22])]
     replies = R.model.batch([("mk_vspec", [cs, sz]) for cs, sz in ctor])
     for (cs, sz), rep in zip(ctor, replies):
         def build():
@@ -167,6 +194,11 @@ def run(R):
         R.count(f"ctor:{impl[0]}")
         if impl != mod:
             R.disagree("ShardVolumeSpec vs mk_vspec", case, impl, mod)
+        if impl[0] == "ok" and all(c > 0 for c in cs) and all(x > 0 for x in sz) and len(set(cs)) == 1:
+            bits = [(-(-x // cs[0]) - 1).bit_length() for x in sz]
+            if sum(bits) > 64:
+                R.violation("a chunk grid whose identifiers need more than 64 bits was accepted (identifiers collide)",
+                            case, {"bits_per_axis": bits})
         if impl[0] == "ok":
             want = [-(-s // cs[0]) for s in sz]
             if impl[1][0] != want or impl[1][1] != [(g - 1).bit_length() for g in want]:
@@ -229,6 +261,36 @@ def run(R):
                         {"impl": impl[1][2], "spec": s_name + b".shard"})
         elif m < 60 and impl[1][3] != 16 * 2 ** m:
             R.violation("shard index length is not 16 * 2^minishard_bits", case, {"impl": impl[1][3]})
+
+    # ------------------------------------------------------------ the same decisions with assertions disabled
+    # (python -O / PYTHONOPTIMIZE): a sample of in-grid and out-of-grid positions through a child interpreter
+    import subprocess
+    import sys as _sys
+    sample = [(cs, sizes, p) for cs, sizes, p, kind in cases if kind == "small"][::7][:400]
+    child = ("import json,sys\nimport numpy as np\nfrom neuroglancer_scripts import sharded_base as sb\n"
+             "out=[]\nfor cs,sizes,p in json.load(sys.stdin):\n"
+             "    v=sb.ShardVolumeSpec([cs]*3,list(sizes))\n"
+             "    try:\n        out.append(['ok',int(v.compressed_morton_code(list(p)))])\n"
+             "    except Exception as e:\n        out.append([type(e).__name__])\n"
+             "print(json.dumps(out))\n")
+    r = subprocess.run([_sys.executable, "-O", "-c", child], input=_json_dumps(sample).encode(),
+                       stdout=subprocess.PIPE, stderr=subprocess.PIPE, timeout=120,
+                       env=dict(os.environ, PYTHONOPTIMIZE="1"))
+    if r.returncode != 0:
+        R.violation("compressed_morton_code under python -O: the child interpreter failed", {}, {"stderr": r.stderr.decode()[-300:]})
+    else:
+        import json as _j
+        for (cs, sizes, p), got in zip(sample, _j.loads(r.stdout.decode())):
+            v = specs[(cs, tuple(sizes))]
+            grid = list(v.grid_sizes)
+            inside = all(0 <= c < g for c, g in zip(p, grid))
+            case = {"chunk": cs, "sizes": sizes, "coords": p, "python": "-O"}
+            R.case(case, nontrivial=not inside)
+            if inside and got != ["ok", ref_cmc(grid, p)]:
+                R.violation("python -O: in-grid position not given the specified identifier", case, {"impl": got})
+            if not inside and got[0] == "ok":
+                R.violation("python -O: position outside the grid accepted (the check is an assert)", case, {"impl": got})
+        R.count("python-O:sample", )
 
     # ------------------------------------------------------------ per-scale parameters through an accessor
     # the bits that route a chunk are those of ITS scale: an accessor asked about several scales, in any
